@@ -24,6 +24,10 @@ import (
 
 var e2eUnder = map[*tls.Conn]net.Conn{}
 
+// the protocol each connection negotiates (chosen by the harness per client address)
+var e2eProto = map[*tls.Conn]string{}
+var e2eProtoByAddr = map[string]string{}
+
 //verif:replace crypto/tls.Server
 func e2eTLSServer(c net.Conn, cfg *tls.Config) *tls.Conn {
 	tc := &tls.Conn{}
@@ -35,20 +39,42 @@ func e2eTLSServer(c net.Conn, cfg *tls.Config) *tls.Conn {
 // capturing conn - and succeeds
 //
 //verif:replace (*crypto/tls.Conn).HandshakeContext
-func e2eHandshake(c *tls.Conn, ctx context.Context) error {
+func e2eHandshake(c *tls.Conn, ctx context.Context) (ret error) {
 	u := e2eUnder[c]
+	// as crypto/tls does: while the handshake runs, cancellation of its context closes the connection
+	// and becomes the handshake's error
+	done := make(chan struct{})
+	interrupted := make(chan error, 1)
+	defer func() {
+		close(done)
+		if err := <-interrupted; err != nil {
+			ret = err
+		}
+	}()
+	go func() {
+		select {
+		case <-ctx.Done():
+			u.Close()
+			interrupted <- ctx.Err()
+		case <-done:
+			interrupted <- nil
+		}
+	}()
 	var hdr [5]byte
 	if _, err := io.ReadFull(u, hdr[:]); err != nil {
 		return err
 	}
 	body := make([]byte, int(hdr[3])<<8|int(hdr[4]))
-	_, err := io.ReadFull(u, body)
-	return err
+	if _, err := io.ReadFull(u, body); err != nil {
+		return err
+	}
+	e2eProto[c] = e2eProtoByAddr[u.RemoteAddr().String()]
+	return nil
 }
 
 //verif:replace (*crypto/tls.Conn).ConnectionState
 func e2eConnectionState(c *tls.Conn) tls.ConnectionState {
-	return tls.ConnectionState{NegotiatedProtocol: "http/1.1", Version: tls.VersionTLS13, CipherSuite: tls.TLS_AES_128_GCM_SHA256, HandshakeComplete: true, ServerName: "front.example"}
+	return tls.ConnectionState{NegotiatedProtocol: e2eProto[c], Version: tls.VersionTLS13, CipherSuite: tls.TLS_AES_128_GCM_SHA256, HandshakeComplete: true, ServerName: "front.example"}
 }
 
 //verif:replace (*crypto/tls.Conn).Read
@@ -75,12 +101,6 @@ func e2eTLSSetReadDeadline(c *tls.Conn, t time.Time) error { return e2eUnder[c].
 //verif:replace (*crypto/tls.Conn).SetWriteDeadline
 func e2eTLSSetWriteDeadline(c *tls.Conn, t time.Time) error { return nil }
 
-// Shutdown of the internal HTTP/1.1 server (polling with jittered timers) is not run; its accept
-// loop ends through the channel listener's context
-//
-//verif:replace (*net/http.Server).Shutdown
-func e2eH1Shutdown(s *http.Server, ctx context.Context) error { return nil }
-
 //verif:replace (*net/http.Transport).Clone
 func e2eTransportClone(t *http.Transport) *http.Transport { return &http.Transport{} }
 
@@ -99,6 +119,9 @@ var e2eBackend struct {
 //
 //verif:replace (*net/http.Transport).RoundTrip
 func e2eRoundTrip(t *http.Transport, r *http.Request) (*http.Response, error) {
+	if g := shBackendGate; g != nil {
+		<-g // the backend takes its time: the exchange is in flight
+	}
 	e2eBackend.n++
 	e2eBackend.method, e2eBackend.url, e2eBackend.host = r.Method, r.URL.String(), r.Host
 	e2eBackend.header = r.Header.Clone()
